@@ -54,6 +54,25 @@ MUTANTS = {
     "next_skips_rank": ("typemap.py", "        for group, (func, codes) in zip(results, funcs):", "        for group, (func, codes) in zip(results[:1] + results[2:], funcs[:1] + funcs[2:]):", ["C07"]),
     "next_error_none_for_amb": ("typemap.py", "            elif obj_t_tup in self.errors:\n                raise self.errors[obj_t_tup]\n            elif obj_t_tup in self:", "            elif obj_t_tup in self:", ["C07"]),
     "callnext_key_no_code": ("recode.py", "        if cn:\n            type_parts.insert(0, ast.Name(id=self.code_mangled, ctx=ast.Load()))\n", "", ["C07"]),
+    # ---- C20
+    "mtm_pop_result": ("typemap.py", "        else:\n            return self[obj_t_tup]\n", "        else:\n            return self.pop(obj_t_tup)\n", ["C20"]),
+    "resolve_method_recomputes": ("core.py", "        self.ensure_compiled()\n        return self.map[tuple(map(subtler_type, args))]", "        self.ensure_compiled()\n        self.map.resolve(tuple(map(subtler_type, args)))\n        return self.map[tuple(map(subtler_type, args))]", ["C20"]),
+    # ---- C05
+    "typemap_register_noclear": ("typemap.py", "        self.clear()\n        self.types.add(obj_t)", "        self.types.add(obj_t)", ["C05"]),
+    "mtm_register_keeps_errors": ("typemap.py", "        self.errors.clear()\n", "", ["C05"]),
+    "mtm_register_keeps_all": ("typemap.py", "        self.all.clear()\n", "", ["C05"]),
+    "mtm_register_noclear": ("typemap.py", "        self.clear()\n        self.all.clear()", "        self.all.clear()", ["C05"]),
+    "unregister_no_update": ("core.py", "                self._defns[replace(key, tiebreak=-i)] = f\n        self._update()", "                self._defns[replace(key, tiebreak=-i)] = f", ["C05"]),
+    "unregister_keeps_tiebreak": ("core.py", "                self._defns[replace(key, tiebreak=-i)] = f", "                self._defns[replace(key, tiebreak=_)] = f", ["C05"]),
+    # ---- C16
+    "defns_overlay_reversed": ("core.py", "        for mixin in self.mixins:\n            defns.update(mixin.defns)\n        defns.update(self._defns)",
+                               "        defns.update(self._defns)\n        for mixin in reversed(self.mixins):\n            defns.update(mixin.defns)", ["C16"]),
+    "compile_no_lock": ("core.py", "        self._lock_parents()\n\n        if self.name is None:", "        if self.name is None:", ["C16"]),
+    "lock_not_recursive": ("core.py", "        self._locked = True\n        for mixin in self.mixins:\n            mixin.lock()\n", "        self._locked = True\n", ["C16"]),
+    "no_children_append": ("core.py", "                mixin.children.append(self)\n", "                pass\n", ["C16"]),
+    "update_no_children": ("core.py", "        for child in self.children:\n            child._update()\n", "", ["C16"]),
+    "addmixins_no_update": ("core.py", "        self.mixins += mixins\n        self._update()\n", "        self.mixins += mixins\n", ["C16"]),
+    "copy_shares_defns": ("core.py", "        return Ovld(mixins=[self, *mixins], linkback=linkback)", "        o = Ovld(mixins=[self, *mixins], linkback=linkback)\n        o._defns = self._defns\n        return o", ["C16"]),
     # ---- C17
     "ext_first_base_only": ("core.py", "                for other in others:\n                    prev.add_mixins(other)\n", "", ["C17"]),
     "ext_no_copy": ("core.py", "                prev = prev.copy()\n                for other in others:", "                for other in others:", ["C17"]),
